@@ -26,6 +26,45 @@ theorem cached_transparent (g : Nat → Nat) (m : Memo) (calls : List Nat) (h : 
     have := callCached_ok g m a h
     simp [runCached, this.1, ih _ this.2]
 
+theorem callCachedP_ok (g : Nat → Option Nat) (m : Memo) (a : Nat) (h : m.okP g) :
+    (callCachedP g m a).1 = g a ∧ (callCachedP g m a).2.okP g := by
+  unfold callCachedP
+  cases m with
+  | none =>
+    cases hg : g a with
+    | none => simp [Memo.okP]
+    | some v => simp [Memo.okP, hg]
+  | some p =>
+    obtain ⟨a', r⟩ := p
+    by_cases e : a' = a
+    · subst e
+      simp only [if_true]
+      exact ⟨h.symm, h⟩
+    · simp only [e, if_false]
+      cases hg : g a with
+      | none => exact ⟨rfl, h⟩
+      | some v => exact ⟨rfl, hg⟩
+
+/-- A cached *partial* function: on every call the wrapper returns what the function returns and raises exactly when
+the function raises, however failing and succeeding arguments are repeated and interleaved. -/
+theorem cached_transparent_partial (g : Nat → Option Nat) (m : Memo) (calls : List Nat) (h : m.okP g) :
+    runCachedP g m calls = calls.map g := by
+  induction calls generalizing m with
+  | nil => rfl
+  | cons a rest ih =>
+    have := callCachedP_ok g m a h
+    simp [runCachedP, this.1, ih _ this.2]
+
+/-- negative witness for the order of effects before fix f118426: `f(1)` returns, `f(0)` raises, `f(0)` again is
+answered from the memo with `f(1)`'s value -/
+theorem stale_after_raise_old :
+    let g : Nat → Option Nat := fun a => if a = 0 then none else some (10 * a)
+    let s1 := callCachedOld g none 1
+    let s2 := callCachedOld g s1.2 0
+    let s3 := callCachedOld g s2.2 0
+    s1.1 = some 10 ∧ s2.1 = none ∧ s3.1 = some 10 ∧ g 0 = none := by
+  decide
+
 /-- `named` on a function that already has a name raises, wherever it comes in the sequence -/
 theorem named_twice_raises (f : Fcn) (n : String) (h : f.name.isSome = true) : f.apply (.named n) = none := by
   simp [Fcn.apply, h]
